@@ -8,6 +8,8 @@ from .. import paths
 from ..core import FUNC, AnalysisError, inert, call_attr, calls_in, const, dotted, is_const, kwarg, norm, slice_parts, text, walk_local
 
 EXPLANATION = [
+    'C20.pending-under-lock: HfProtocol.execute_command assigns a (non-None) pending_command only inside `async with self.command_lock`.',
+    'C20.open-guard-first: Multiplexer.open_dlc tests self.state (raising for a second open) before any assignment to self.open_*.',
     'C20.queued-frames-hold-credits: RFCOMM DLC: rx_credits_needed counts the frames queued for a missing sink as occupied window, the queue is at least as large as the window, and the sink setter empties the queue and calls process_tx().',
     'C20.brsf-reply: AgProtocol._on_brsf formats its +BRSF reply from self.supported_ag_features itself.',
     "C20.empty-parameters: AtCommand.parse_from calls at.parse_parameters only under the truth of the parameter text: a SET command with nothing after '=' has an empty parameter list.",
@@ -1376,7 +1378,57 @@ def queued_frames_hold_credits(ctx):
     R.check(ok, rule, 'bumble.rfcomm.DLC.sink (setter)', 'hands the queued frames over, empties the queue and lets process_tx() return the credits', 'attaching the sink does not trigger process_tx(): the credits held by the frames that were queued are never returned and the sender stalls', p.loc(setter) if setter is not None else p.loc(ci.node))
 
 
+def open_guard_first(ctx):
+    """Multiplexer.open_dlc refuses a second open before it touches the state of the one in flight: the state test (and
+    its raise) precedes every assignment to `self.open_*`, or the parameters remembered for the pending open are
+    overwritten by a call that is then rejected."""
+    R, p = ctx.r, ctx.p
+    rule = 'C20.open-guard-first'
+    fn = p.find('bumble.rfcomm.Multiplexer.open_dlc')
+    if fn is None:
+        R.bad(rule, 'bumble.rfcomm.Multiplexer.open_dlc', 'anchor missing')
+        return
+    early = []
+
+    class D(paths.Domain):
+        def assume(self, atom, truth, v):
+            if 'self.state' in norm(atom):
+                return (True,)
+            return (v,)
+
+        def event(self, node, v):
+            if isinstance(node, ast.Assign) and any((dotted(t) or '').startswith('self.open_') for t in node.targets) and not v:
+                early.append(node)
+            return (v,)
+    paths.run(fn, D(), False)
+    guard = [i_ for i_ in walk_local(fn) if isinstance(i_, ast.If) and 'self.state' in norm(i_.test) and any(isinstance(x, ast.Raise) for x in ast.walk(i_))]
+    R.check(bool(guard) and not early, rule, 'bumble.rfcomm.Multiplexer.open_dlc', 'state tested before self.open_* is written', f'`{norm(early[0])[:50] if early else ""}` is executed before the state test: an open_dlc() call that is rejected ("open already in progress") has already replaced the PN parameters of the open in flight - that link is then set up with the other call\'s frame size and credits on one side only', p.loc(early[0]) if early else p.loc(fn))
+
+
+def pending_under_lock(ctx):
+    """HfProtocol.execute_command makes itself the pending command only once it holds command_lock: a command that is merely
+    queued must not replace the one whose responses are being collected."""
+    R, p = ctx.r, ctx.p
+    rule = 'C20.pending-under-lock'
+    fn = p.find(f'{HF}.execute_command')
+    if fn is None:
+        R.bad(rule, f'{HF}.execute_command', 'anchor missing')
+        return
+    sets = [s_ for s_ in walk_local(fn) if isinstance(s_, ast.Assign) and dotted(s_.targets[0]) == 'self.pending_command' and not (is_const(s_.value) and const(s_.value) is None)]
+    R.check(len(sets) >= 1, rule, f'{HF}.execute_command | pending_command', f'{len(sets)} assignment(s)', 'pending_command is never set (anchor)', p.loc(fn))
+    for s_ in sets:
+        a = getattr(s_, '_parent', None)
+        inside = False
+        while a is not None and a is not fn:
+            if isinstance(a, (ast.AsyncWith, ast.With)) and any('command_lock' in norm(i.context_expr) for i in a.items):
+                inside = True
+            a = getattr(a, '_parent', None)
+        R.check(inside, rule, f'{HF}.execute_command | {norm(s_)[:40]}', 'inside `async with self.command_lock`', 'pending_command is set before the lock is held: a command queued behind the running one replaces it, the running command\'s responses are filed as unsolicited and it fails with NO ANSWER - the service level connection does not complete when the application issues a command meanwhile', p.loc(s_))
+
+
 RULES = [
+    ('C20.pending-under-lock', pending_under_lock),
+    ('C20.open-guard-first', open_guard_first),
     ('C20.queued-frames-hold-credits', queued_frames_hold_credits),
     ('C20.brsf-reply', brsf_reply),
     ('C20.empty-parameters', empty_parameters),
